@@ -154,15 +154,29 @@ def run(tier, seed, drv):
     n_exh = len(cases)
     for _ in range(300 if tier == "quick" else 3000):
         cases.append(gen_ops(rng, rng.randrange(3, 14), addrs=4, vals=3))
+    # LONG histories: thousands of adapter writes (and input lists of thousands of entries) between two updates - every one
+    # of them counts, the first as much as the last
+    for k in range(3 if tier == "quick" else 12):
+        n_w = rng.choice((1100, 2500, 4200))
+        addrs = rng.choice((3, 50, 5000))
+        c = [{"o": "write", "a": 10_000 + k, "v": 7}]
+        c += [{"o": "write", "a": rng.randrange(addrs), "v": rng.randrange(3)} for _ in range(n_w)]
+        c.append({"o": "update", "ins": [[rng.randrange(addrs), rng.randrange(3)] for _ in range(rng.choice((0, 3, 1500)))]})
+        c += [{"o": "read", "a": 10_000 + k}, {"o": "read", "a": 0}, {"o": "read", "a": 1}]
+        c += [{"o": "write", "a": rng.randrange(addrs), "v": rng.randrange(3)} for _ in range(rng.choice((1, 1025, 2049)))]
+        c += [{"o": "update", "ins": []}, {"o": "read", "a": 2}, {"o": "read", "a": 10_000 + k}]
+        cases.append(c)
     replies = drv.eval([{"op": "iobox", "ops": [dict(o, ins=o.get("ins", [])) for o in c]} for c in cases])
     for c, rep in zip(cases, replies):
         writes = sum(1 for o in c if o["o"] == "write")
         same = len({o["a"] for o in c if o["o"] == "write"}) < writes
-        res.case(str(c), nontrivial=writes > 0, sample={"ops": c, "model": rep})
+        if len(c) > 200:
+            res.count("long-histories")
+        res.case(str(c) if len(c) <= 200 else f"long:{len(c)}:{hash(str(c))}", nontrivial=writes > 0, sample={"ops": c, "model": rep} if len(c) <= 200 else None)
         res.count("multi-write-same-addr" if same else "simple")
         check_case(c, rep, res)
     res.rule = (f"all operation sequences of length <= {depth} over write/read/update on 2 addresses x 2 values "
-                f"({n_exh} sequences, each followed by update+reads) plus seeded random sequences over 4x3; "
+                f"({n_exh} sequences, each followed by update+reads) plus seeded random sequences over 4x3 and long histories (1100-4200 writes and up to 1500 input entries between two updates); "
                 "non-trivial = contains at least one write; distinct by operation sequence")
     return res
 
